@@ -26,6 +26,7 @@ import logging
 import os
 import re
 import shutil
+import sys
 import tempfile
 import warnings
 
@@ -66,13 +67,17 @@ EXTRA = {
         "the clause 'a stream supplied by the caller is never closed' is decided by the harness on the real code; the "
         "theorem caller_stream_untouched speaks about the model, whose choice of nullcontext for a stream source is not "
         "read from the source (the frame table drops the test of the conditional)",
+        "the order in which the independent files of a folder root are read is not part of the property (the statement "
+        "is per file): it is observed in a dry run (audit hook on open) and handed to the model; the order of roots and "
+        "includes (LIFO work list) is taken by construction and is C16's subject",
         "single consumer thread; no concurrent modification of the files",
         "the pinned frame table is a canonical abstraction of the source (harness/extract.py item with_frames): callee "
         "names and the kind of each positional argument (<param> / <local> / nested call) of with-items, opener calls, "
         "close calls, yields and write/save calls (a local all of whose assignments are possibly conditional copies / path "
         "conversions of ONE parameter counts as that parameter); keyword arguments, literal arguments (file modes), the tests of "
         "conditional expressions, with-items rooted at a local that are neither an opener nor closing(...), and all "
-        "other statements are NOT in the table; a module-private helper that only returns opener / nullcontext "
+        "other statements are NOT in the table, and the entries of each function are sorted (their order carries no "
+        "meaning: re-ordering exclusive branches or independent calls does not change the table); a module-private helper that only returns opener / nullcontext "
         "expressions is followed one level. What the table drops (e.g. which branch of `open(..) if .. else "
         "nullcontext(..)` is taken when) is tied to the code by the correspondence run only",
     ],
@@ -421,13 +426,52 @@ def gen_scenario(rng, api, inject, pat_mode=None, gapkind=None, host_empty=None,
             "str_path": rng.random() < 0.5, "folder": folder}
 
 
+_OPEN_LOG = None          # while a list: every path given to open() in this process is appended (audit hook)
+
+
+def _audit(event, args):
+    if _OPEN_LOG is not None and event == "open" and args and isinstance(args[0], (str, bytes, os.PathLike)):
+        _OPEN_LOG.append(os.fsdecode(args[0]))
+
+
+sys.addaudithook(_audit)
+
+
+def _observed_folder_order(sc, scratch):
+    """C19 promises nothing about the ORDER in which the independent files of a folder are read (the statement is
+    per file).  The order is therefore observed — a dry run of the same call to its end, recording the first open()
+    of every file — and handed to the model; files the dry run never reached (it ended in an error) follow by name."""
+    global _OPEN_LOG
+    by_path = {os.path.realpath(os.path.join(scratch, f["name"])): f for f in sc["files"]}
+    paths = {f["id"]: os.path.join(scratch, f["name"]) for f in sc["files"]}
+    obs = Observer(scratch, paths)
+    seen, _OPEN_LOG = [], []
+    try:
+        with warnings.catch_warnings():
+            warnings.simplefilter("ignore")
+            g, _ = make_reader(sc, paths, obs)
+            try:
+                for _ in g:
+                    pass
+            except Exception:          # noqa — the dry run may end in the injected error
+                pass
+            g = None
+        for q in _OPEN_LOG:
+            f = by_path.get(os.path.realpath(q))
+            if f is not None and f not in seen:
+                seen.append(f)
+    finally:
+        _OPEN_LOG = None
+    rest = sorted((f for f in sc["files"] if f not in seen), key=lambda f: f["name"])
+    return seen + rest
+
+
 def _read_order(sc, scratch=None):
-    """load_files: the order in which queued_load pops the work list (LIFO; includes are pushed while reading;
-    a folder root pushes its files in the order in which the directory lists them)"""
+    """load_files: the order in which queued_load pops the work list (LIFO; includes are pushed while reading).
+    For a folder root the order of its files is the observed one."""
     by_name = {f["name"]: f for f in sc["files"]}
     if sc.get("folder"):
-        import pathlib
-        stack = [by_name[p.name] for p in pathlib.Path(scratch).iterdir() if p.name in by_name]
+        return _observed_folder_order(sc, scratch)
     else:
         stack = [sc["files"][i] for i in sc["roots"]]
     order = []
